@@ -20,6 +20,8 @@ func init() {
 			c.run("C01-R4", "SIBLING: per-file exchange order and version dispatch agree", c01R4)
 			c.run("C01-R5", "GUARD-DOM: negotiated protocol is the minimum of both ends", func(c *Ctx) { c14R3(c) })
 			c.run("C01-R6", "PAIR: open files do not accumulate over the per-file loops", c01R6)
+			c.run("C01-R7", "SIBLING: paired steps run under the same range of negotiated versions", c01R7)
+			c.run("C01-R8", "SIBLING: directory / archive / plain-file dispatch has the same polarity on both ends", c01R8)
 			c.run("C01-S4", "shared with C15-R3: archive reader/writer close the previous entry's file", c15R3)
 			c.run("C01-S5", "shared with C04-R4/R6: everything written to the connection is a protocol line with the negotiated newline, or framed/escaped payload whose announced length is its real length", func(c *Ctx) { c04R4(c); c04FrameLen(c) })
 			c.run("C01-S1", "shared with C02: digest compare and saved==size gates dominate success", func(c *Ctx) { c02Digest(c); c02SavedSize(c); c02OneStream(c) })
@@ -477,4 +479,171 @@ func c01R6(c *Ctx) {
 			c.check(hit == nil, name+"/no-defer-close-in-loop", c.ipos(d), "Close is not deferred inside a loop", "Close is deferred inside a loop: every file of the transfer stays open until the function returns")
 		})
 	}
+}
+
+// protoRangeAt: the interval of negotiated protocol versions under which block b runs, from the
+// dominating branch facts on loads of the Protocol field. "[lo,hi]" with hi=inf when unbounded.
+func protoRangeAt(b *ssa.BasicBlock) string {
+	lo, hi := int64(0), int64(1<<30)
+	for _, f := range factsAt(b) {
+		op, x, y, ok := cmpFact(f)
+		if !ok {
+			continue
+		}
+		if isFieldLoad("Protocol")(y) {
+			x, y = y, x
+			op = map[token.Token]token.Token{token.LSS: token.GTR, token.GTR: token.LSS, token.LEQ: token.GEQ, token.GEQ: token.LEQ, token.EQL: token.EQL, token.NEQ: token.NEQ}[op]
+		}
+		n, isC := constInt(y)
+		if !isFieldLoad("Protocol")(x) || !isC {
+			continue
+		}
+		switch op {
+		case token.LSS:
+			hi = min64(hi, n-1)
+		case token.LEQ:
+			hi = min64(hi, n)
+		case token.GTR:
+			lo = max64(lo, n+1)
+		case token.GEQ:
+			lo = max64(lo, n)
+		case token.EQL:
+			lo, hi = max64(lo, n), min64(hi, n)
+		}
+	}
+	if hi == 1<<30 {
+		return fmt.Sprintf("[%d,inf]", lo)
+	}
+	return fmt.Sprintf("[%d,%d]", lo, hi)
+}
+
+func min64(a, b int64) int64 {
+	if a < b {
+		return a
+	}
+	return b
+}
+
+func max64(a, b int64) int64 {
+	if a > b {
+		return a
+	}
+	return b
+}
+
+// c01R7: paired steps of the two roles run under the same range of negotiated versions
+// (C01-R4 compares only which constants are switched on; this compares the side of the switch).
+func c01R7(c *Ctx) {
+	rangesOf := func(f *ssa.Function, match func(ssa.CallInstruction) bool) string {
+		var out []string
+		for _, ci := range callsIn(f, anyID) {
+			if match(ci) {
+				out = append(out, protoRangeAt(ci.Block()))
+			}
+		}
+		sort.Strings(out)
+		return strings.Join(out, " ")
+	}
+	byID := func(id string) func(ssa.CallInstruction) bool {
+		return func(ci ssa.CallInstruction) bool { return calleeID(ci.Common()) == id }
+	}
+	typed := func(id, typ string) func(ssa.CallInstruction) bool {
+		return func(ci ssa.CallInstruction) bool {
+			if calleeID(ci.Common()) != id || len(ci.Common().Args) < 2 {
+				return false
+			}
+			s, ok := constString(strip(ci.Common().Args[1]))
+			return ok && s == typ
+		}
+	}
+	sf, rf := c.fn("trzszTransfer.sendFiles"), c.fn("trzszTransfer.recvFiles")
+	for _, p := range [][2]string{{"sendFileNameV3", "recvFileNameV3"}, {"sendFileName", "recvFileName"}, {"sendFileDataV2", "recvFileDataV2"}, {"sendFileData", "recvFileData"}} {
+		a, b := rangesOf(sf, byID(tT+p[0])), rangesOf(rf, byID(tT+p[1]))
+		c.check(a == b && a != "", "version-range/"+p[0]+"~"+p[1], c.pos(sf.Pos()), "both roles take this step under protocol range "+a, "the sender takes this step under protocol "+a+", the receiver under "+b)
+	}
+	sp, rp := c.fn("trzszTransfer.sendPrefixHash"), c.fn("trzszTransfer.recvPrefixHash")
+	a, b := rangesOf(sp, typed(tT+"sendInteger", "SIZE")), rangesOf(rp, typed(tT+"recvInteger", "SIZE"))
+	c.check(a == b && a != "", "version-range/prefix-hash-SIZE", c.pos(sp.Pos()), "the source size travels as a separate message under protocol range "+a+" on both ends", "the sender announces the size under protocol "+a+", the receiver expects it under "+b)
+}
+
+// boolFieldFactAt: the dominating facts fix bool field `name` to a value at block b.
+func boolFieldFactAt(b *ssa.BasicBlock, name string) (val, known bool) {
+	for _, f := range factsAt(b) {
+		if isFieldLoad(name)(f.V) {
+			return f.Pol, true
+		}
+	}
+	return false, false
+}
+
+// c01R8: what kind of entry (directory / archive stream / plain file) each end treats a source entry as is
+// decided by the same flags with the same polarity, so an entry is never sent as one kind and stored as another.
+func c01R8(c *Ctx) {
+	want := func(f *ssa.Function, ci ssa.CallInstruction, key, fld string, val bool, okMsg, badMsg string) {
+		v, known := boolFieldFactAt(ci.Block(), fld)
+		c.check(known && v == val, c.fnName(f)+"/"+key, c.ipos(ci), okMsg, badMsg)
+	}
+	nilFirstReturn := func(f *ssa.Function, fld string) {
+		n := 0
+		eachInstr(f, func(in ssa.Instruction) {
+			r, ok := in.(*ssa.Return)
+			if !ok || !isNilErrReturn(in) || !isNilConst(retVal(r, 0)) {
+				return
+			}
+			n++
+			v, known := boolFieldFactAt(in.Block(), fld)
+			c.check(known && v, c.fnName(f)+"/no-stream-iff-"+fld, c.ipos(in), "success without a data stream only for a directory entry", "success without a data stream is returned for something that is not a directory entry (its size/data/MD5 steps are then skipped)")
+		})
+		if n == 0 {
+			c.bad(c.fnName(f)+"/no-stream-iff-"+fld, c.pos(f.Pos()), "no directory-entry exit found")
+		}
+	}
+	for _, name := range []string{"trzszTransfer.sendFileName", "trzszTransfer.sendFileNameV3"} {
+		f := c.fn(name)
+		opens := callsIn(f, idIs("os.Open"))
+		if len(opens) != 1 {
+			c.lost("os.Open in " + name)
+		}
+		want(f, opens[0], "open-iff-not-dir", "IsDir", false, "the source file is opened only for a non-directory entry", "the source is opened on the directory edge (and a plain file is announced without data)")
+		nilFirstReturn(f, "IsDir")
+	}
+	v3 := c.fn("trzszTransfer.sendFileNameV3")
+	for _, ci := range callsIn(v3, idIs(tT+"newArchiveReader")) {
+		good := false
+		for _, f := range factsAt(ci.Block()) {
+			op, x, y, ok := cmpFact(f)
+			if call, _ := callOf(x); ok && op == token.GTR && isConstIntV(0)(y) && call != nil && calleeID(&call.Call) == "builtin len" {
+				if isFieldLoad("SubFiles")(call.Call.Args[0]) {
+					good = true
+				}
+			}
+		}
+		c.check(good, "sendFileNameV3/archive-iff-subfiles", c.ipos(ci), "an archive stream is produced exactly for an entry with sub-files (the flag the receiver sees is computed from the same test)", "the archive reader is chosen on the wrong edge of the sub-files test")
+	}
+	m := c.fn("sourceFile.marshalSourceFile")
+	okFlag := false
+	eachInstr(m, func(in ssa.Instruction) {
+		st, ok := in.(*ssa.Store)
+		if !ok {
+			return
+		}
+		if n, _ := fieldAddrName(st.Addr); n == "sourceFile.Archive" {
+			b, isB := st.Val.(*ssa.BinOp)
+			if isB && b.Op == token.GTR && isConstIntV(0)(b.Y) {
+				if call, _ := callOf(b.X); call != nil && calleeID(&call.Call) == "builtin len" && isFieldLoad("SubFiles")(call.Call.Args[0]) {
+					okFlag = true
+				}
+			}
+		}
+	})
+	c.check(okFlag, "marshalSourceFile/archive-flag", c.pos(m.Pos()), "the archive flag announced is len(SubFiles) > 0", "the archive flag announced is not len(SubFiles) > 0")
+	cf := c.fn("trzszTransfer.createDirOrFile")
+	for _, ci := range callsIn(cf, idIs(tT+"newArchiveWriter")) {
+		want(cf, ci, "archive-writer-iff-flag", "Archive", true, "the archive writer is used exactly when the sender flagged an archive stream", "the archive writer is chosen on the wrong edge of the archive flag")
+	}
+	for _, ci := range callsIn(cf, idIs(tT+"doCreateFile")) {
+		want(cf, ci, "file-iff-not-dir", "IsDir", false, "a plain file is created only for a non-directory entry", "a plain file is created for a directory entry")
+		want(cf, ci, "file-iff-not-archive", "Archive", false, "a plain file is created only for a non-archive entry", "a plain file is created for an archive stream")
+	}
+	nilFirstReturn(cf, "IsDir")
 }
